@@ -308,10 +308,16 @@ func invSuffixed(r *suffixedReader) bool {
 //@   ensures  [inv]  invSuffixed(r) && 0 <= n && n <= len(p)
 //@   assigns r.r, r.pos, bytes(p), stream(r.r)
 
+func isByteReader(r io.Reader) bool {
+	_, ok := r.(io.ByteReader)
+	return ok
+}
+
 //@ func suffixedReader.ReadByte
 //@   props C12 C15
-//@   requires [inv]  invSuffixed(r) && (r.r != nil ==> streamOK(r.r))
+//@   requires [inv]  invSuffixed(r) && (r.r != nil ==> streamOK(r.r) && isByteReader(r.r))
 //@   ensures  [src]  old(r.r) != nil && old(inPos(r.r)) < inEnd(old(r.r)) && err == nil ==> b == inByte(old(r.r), old(inPos(r.r))) && inPos(old(r.r)) == old(inPos(r.r))+1 && r.pos == old(r.pos)
 //@   ensures  [next] err == nil && !(old(r.r) != nil && old(inPos(r.r)) < inEnd(old(r.r))) ==> b == specTailByte(old(r.pos)) && r.pos == old(r.pos)+1 && old(r.pos) < 9 && r.r == nil
+//@   ensures  [end]  old(r.r) == nil || (old(inPos(r.r)) == inEnd(old(r.r)) && inErr(old(r.r)) == io.EOF) ==> (err != nil) == (old(r.pos) >= 9) && (err != nil ==> err == io.EOF && r.pos == old(r.pos))
 //@   ensures  [inv]  invSuffixed(r)
 //@   assigns r.r, r.pos, stream(r.r)
